@@ -139,6 +139,19 @@ Section Space.
                   (mkCache (c_lru c) (c_pend c) (c_nf c) (c_pnf c) (remove_nth n (c_stall c))) x
     | None => c
     end.
+  (* With the original flushPendingWrites a held reader's write is harmless if it lands while
+     the DB round it was read at is still the current one, or while a newer entry for its key
+     (written by the postCommit that changed it) is still in the cache. *)
+  Definition item_land_ok (R : nat) (c : cache) (x : centry + K * nat) : bool :=
+    match x with
+    | inl e => (ce_rnd e =? R) ||
+               match c_read (c_lru c) (ce_key e) with Some e' => ce_rnd e <? ce_rnd e' | None => false end
+    | inr p => (snd p =? R) ||
+               match c_read (c_lru c) (fst p) with Some _ => true | None => false end
+    end.
+  Definition cache_land_ok (R : nat) (c : cache) (n : nat) : bool :=
+    match nth_error (c_stall c) n with Some x => item_land_ok R c x | None => true end.
+
   (* flushPendingWritesSince(R) (fixed) / flushPendingWrites (original) *)
   Definition flush_one (fixed : bool) (R : nat) (l : list centry) (e : centry) : list centry :=
     if fixed && (ce_rnd e <? R) then lru_touch l (ce_key e) else lru_write l e.
@@ -506,6 +519,17 @@ Definition reload (s : st) : st * bool :=
   | _, _ => (s, false)
   end.
 
+(* the landing of a held reader's cache write that the original flush tolerates (any landing is
+   fine with the proposed flushPendingWritesSince) *)
+Definition land_okb (s : st) (space n : nat) : bool :=
+  cf_fix (t_cfg s) ||
+  match space with
+  | 0 => cache_land_ok _ _ N.eqb (t_dbRound s) (s_cache _ _ (t_acc s)) n
+  | 1 => cache_land_ok _ _ pair_eqb (t_dbRound s) (s_cache _ _ (t_res s)) n
+  | 2 => cache_land_ok _ _ bytes_eqb (t_dbRound s) (s_cache _ _ (t_kv s)) n
+  | _ => true
+  end.
+
 Definition lmap {A B : Type} (f : A -> B) (r : lres A) : lres B :=
   match r with LOk a => LOk (f a) | LRetry => LRetry | LErr c => LErr c end.
 
@@ -561,6 +585,13 @@ Fixpoint run (s : st) (ops : list op) : st * list out :=
   match ops with
   | [] => (s, [])
   | o :: tl => let (s1, r) := step s o in let (s2, rs) := run s1 tl in (s2, r :: rs)
+  end.
+
+(* every landing in the run is one the original flush tolerates *)
+Fixpoint lands_ok (s : st) (ops : list op) : bool :=
+  match ops with
+  | [] => true
+  | o :: tl => match o with OLand sp n => land_okb s sp n | _ => true end && lands_ok (fst (step s o)) tl
   end.
 
 (* the block history an operation sequence produces *)
